@@ -178,8 +178,13 @@ impl Fields {
             }
             let name = field.name_for_compile();
             let name_str = name.to_string();
+            // skipping validation only skips validating the contents of the
+            // field: we still need to check that it is present when required,
+            // because the generated compilation code relies on that.
+            let skip_validation =
+                matches!(field.attrs.validate.as_deref(), Some(FieldValidation::Skip));
             let validation_call = match field.attrs.validate.as_deref() {
-                Some(FieldValidation::Skip) => continue,
+                Some(FieldValidation::Skip) => None,
                 Some(FieldValidation::Custom(ident)) => Some(quote!( self.#ident(ctx); )),
                 None if field.gets_recursive_validation() => {
                     Some(quote!( self.#name.validate_impl(ctx); ))
@@ -239,9 +244,9 @@ impl Fields {
                 .then(|| quote!(self.#name.is_some() &&));
             let maybe_unwrap = is_conditional.is_some().then(|| quote!(.as_ref().unwrap()));
 
-            let array_len_check = if let Some(ident) =
-                field.attrs.count.as_deref().and_then(Count::single_field)
-            {
+            let array_len_check = if skip_validation {
+                None
+            } else if let Some(ident) = field.attrs.count.as_deref().and_then(Count::single_field) {
                 let typ = self.get_scalar_field_type(ident);
                 Some(quote! {
                     if #maybe_check_is_some self.#name #maybe_unwrap.len() > (#typ::MAX as usize) {
